@@ -65,7 +65,7 @@ def bounded(tier, seed):
                                  "got": None if m is None else m.group(0), "want": s0[:want_end]})
     # function-level restatements (props/funcspecs.py): line predicates, block heuristics, atomic patterns
     from . import funcspecs as FS
-    evals += FS.block_heuristics(viol) + FS.tag_line_predicates(viol) + FS.atomic_patterns(viol)
+    evals += FS.block_heuristics(viol) + FS.tag_line_predicates(viol) + FS.atomic_patterns(viol) + FS.fence_opener_sweep(viol)
     # tag lines stay alone on their own unindented line; enclosed lists/tables stay lists/tables with blank lines
     # (an earlier fenced code block, with an indented closing fence, must not disturb what follows it)
     PREFIXES = ("", "- item\n\n  ```\n  code\n  ```\n\n", " ~~~\ncode {% x %}\n ~~~\n\n", "```\n{% f %}\n- no list\n```\n\npara\n\n")
